@@ -829,3 +829,44 @@ package kafka
 //@   loop 5 invariant partitionOffsets != nil && ret != nil && ret.Topics != nil
 //@   loop 5 invariant forall kid ref :: loopentry(inmap(partitionOffsets, kid) && mapat(partitionOffsets, kid).Error != nil) ==> inmap(partitionOffsets, kid) && mapat(partitionOffsets, kid).Error != nil
 //@   loop 6 invariant ret != nil && ret.Topics != nil
+
+//@ property C12
+
+//@ func sortMetadataBrokers
+//@   trusted sorts the broker list of the metadata response in place
+//@ func sortMetadataTopics
+//@   trusted sorts the topic list of the metadata response in place
+//@ func sortMetadataPartitions
+//@   trusted sorts a partition list in place
+//@ func makeLayout
+//@   trusted builds the protocol.Cluster view of a metadata response (fresh maps)
+//@   ensures result.Brokers != nil
+//@ func (*connPool).grabState
+//@   trusted atomic load of the pool state
+//@ func (*connPool).setState
+//@   trusted atomic store of the pool state
+//@ func (*connPool).setReady
+//@   trusted fires the ready event once
+//@ func (*connPool).newBrokerConnGroup
+//@   trusted allocates the connection group of a broker
+//@   ensures result != nil && fresh(result)
+//@ func (*connGroup).closeIdleConns
+//@   trusted closes idle connections of a group
+
+// update: a broker whose address record changed in the new metadata (or that is new) gets a fresh connection group and a
+// broker that disappeared or changed loses its group, so later requests are routed to the address the last metadata names.
+//@ func (*connPool).update
+//@   requires p.conns != nil
+//@   option noframe
+//@   modifies heap
+//@   loop 1 invariant addBrokers != nil && delBrokers != nil
+//@   loop 1 invariant forall id int32 :: visited(id) ==> ((!haskey(state.layout.Brokers, id) ==> haskey(addBrokers, id)) && (haskey(state.layout.Brokers, id) && state.layout.Brokers[id] != layout.Brokers[id] ==> haskey(addBrokers, id) && haskey(delBrokers, id)))
+//@   loop 1 after forall id int32 :: haskey(layout.Brokers, id) ==> ((!haskey(state.layout.Brokers, id) ==> haskey(addBrokers, id)) && (haskey(state.layout.Brokers, id) && state.layout.Brokers[id] != layout.Brokers[id] ==> haskey(addBrokers, id) && haskey(delBrokers, id)))
+//@   loop 2 invariant addBrokers != nil && delBrokers != nil
+//@   loop 2 invariant forall id int32 :: haskey(layout.Brokers, id) ==> ((!haskey(state.layout.Brokers, id) ==> haskey(addBrokers, id)) && (haskey(state.layout.Brokers, id) && state.layout.Brokers[id] != layout.Brokers[id] ==> haskey(addBrokers, id) && haskey(delBrokers, id)))
+//@   loop 2 invariant forall id int32 :: visited(id) && !haskey(layout.Brokers, id) ==> haskey(delBrokers, id)
+//@   loop 2 after forall id int32 :: haskey(state.layout.Brokers, id) && !haskey(layout.Brokers, id) ==> haskey(delBrokers, id)
+//@   loop 3 invariant p.conns != nil && addBrokers != nil
+//@   loop 4 invariant p.conns != nil
+//@   loop 4 invariant forall id int32 :: visited(id) ==> haskey(p.conns, id) && p.conns[id] != nil && fresh(p.conns[id])
+//@   loop 4 after forall id int32 :: haskey(addBrokers, id) ==> haskey(p.conns, id) && p.conns[id] != nil && fresh(p.conns[id])
